@@ -534,27 +534,48 @@ pub struct Lim {
     pub max_arr: usize,
     pub max_depth: u64,
     pub max_msg: usize,
+    /// 0 = explicit numbers, 1 = `DecodingOptions::default()`, 2 = `DecodingOptions::minimal()`
+    pub named: u8,
 }
 
 impl Lim {
     pub fn parse(s: &str) -> Option<Lim> {
+        // `default` / `minimal`: the real constructors are used (see `options`), so their constants are tied too
+        if s == "default" {
+            return Some(Lim { named: 1, ..Lim::default() });
+        }
+        if s == "minimal" {
+            return Some(Lim { named: 2, ..Lim::minimal() });
+        }
         let inner = s.strip_prefix('[')?.strip_suffix(']')?;
         let v: Vec<u64> = inner.split(',').map(|x| x.parse().ok()).collect::<Option<_>>()?;
         if v.len() != 5 {
             return None;
         }
-        Some(Lim { max_str: v[0] as usize, max_bytes: v[1] as usize, max_arr: v[2] as usize, max_depth: v[3], max_msg: v[4] as usize })
+        Some(Lim { max_str: v[0] as usize, max_bytes: v[1] as usize, max_arr: v[2] as usize, max_depth: v[3], max_msg: v[4] as usize, named: 0 })
     }
     pub fn show(&self) -> String {
+        if self.named == 1 {
+            return "default".to_string();
+        }
+        if self.named == 2 {
+            return "minimal".to_string();
+        }
         format!("[{},{},{},{},{}]", self.max_str, self.max_bytes, self.max_arr, self.max_depth, self.max_msg)
     }
     pub fn default() -> Lim {
-        Lim { max_str: 65535, max_bytes: 65535, max_arr: 1000, max_depth: 10, max_msg: 327675 }
+        Lim { max_str: 65535, max_bytes: 65535, max_arr: 1000, max_depth: 10, max_msg: 327675, named: 0 }
     }
     pub fn minimal() -> Lim {
-        Lim { max_str: 8192, max_bytes: 8192, max_arr: 8192, max_depth: 1, max_msg: 327675 }
+        Lim { max_str: 8192, max_bytes: 8192, max_arr: 8192, max_depth: 1, max_msg: 327675, named: 0 }
     }
     pub fn options(&self) -> DecodingOptions {
+        if self.named == 1 {
+            return DecodingOptions::default();
+        }
+        if self.named == 2 {
+            return DecodingOptions::minimal();
+        }
         DecodingOptions {
             max_string_length: self.max_str,
             max_byte_string_length: self.max_bytes,
@@ -1155,7 +1176,8 @@ pub fn run_dec(ty: &str, lim: &Lim, bytes: &[u8]) -> (String, DecOut) {
         Some(Err(_)) => ("err".to_string(), DecOut::Err),
         Some(Ok((v, pos))) => {
             let (re, _) = v.encode();
-            (format!("ok {} x{}", pos, hex(&re)), DecOut::Ok(v, pos))
+            // the value itself (not only its re-encoding: i8 -128 and a hypothetical 128 re-encode alike)
+            (format!("ok {} x{} = {}", pos, hex(&re), v.tree()), DecOut::Ok(v, pos))
         }
     }
 }
@@ -1184,8 +1206,25 @@ pub fn run_struct<T: BinaryEncoder<T>>(bytes: &[u8], o: &DecodingOptions) -> Res
     let pos = c.position() as usize;
     let mut w = Cursor::new(Vec::new());
     let reported = v.encode(&mut w)?;
-    Ok((pos, w.into_inner(), v.byte_len(), reported))
+    let re = w.into_inner();
+    // API surface: the convenience encoder and the ExtensionObject wrapping of a structure
+    // (`from_encodable` sizes its buffer with byte_len, `decode_inner` decodes the body again)
+    let eo = ExtensionObject::from_encodable(NodeId::null(), &v);
+    let inner_ok = match eo.decode_inner::<T>(&DecodingOptions { decoding_depth_gauge: Arc::new(DepthGauge::new(64)), max_string_length: 1 << 20, max_byte_string_length: 1 << 20, max_array_length: 1 << 16, ..Default::default() }) {
+        // equal up to the DateTime clamp (a date after 9999 re-encodes as endtimes): same length
+        Ok(v2) => v2.encode_to_vec().len() == re.len(),
+        Err(_) => false,
+    };
+    let body_ok = matches!(&eo.body, ExtensionObjectEncoding::ByteString(b) if b.value.as_deref() == Some(&re[..]));
+    if v.encode_to_vec() != re || !inner_ok || !body_ok {
+        API_MISMATCH.store(true, std::sync::atomic::Ordering::Relaxed);
+    }
+    Ok((pos, re, v.byte_len(), reported))
 }
+
+/// set by `run_struct` when `encode_to_vec` / `ExtensionObject::from_encodable` / `decode_inner`
+/// disagree with `encode`; read (and cleared) by the C01 oracle
+pub static API_MISMATCH: std::sync::atomic::AtomicBool = std::sync::atomic::AtomicBool::new(false);
 
 pub fn schema_of(name: &str) -> Option<&'static [Ty]> {
     dispatch::SCHEMAS.iter().find(|(n, _)| *n == name).map(|(_, f)| *f)
@@ -1265,6 +1304,11 @@ impl<'a> Gen<'a> {
                 true
             }
             Ty::Arr(t) => {
+                if spoil && self.rng.chance(1, 12) {
+                    // a negative length other than -1
+                    out.extend_from_slice(&(*self.rng.pick(&[-2i32, i32::MIN])).to_le_bytes());
+                    return false;
+                }
                 let n: i32 = if level >= 3 {
                     *self.rng.pick(&[-1, 0])
                 } else {
@@ -1406,4 +1450,75 @@ pub fn run_msg(id: u32, lim: &Lim, bytes: &[u8]) -> String {
             format!("ok {} x{} {}", c.position(), hex(&w.into_inner()), m.byte_len())
         }
     }
+}
+
+// ---------------------------------------------------------------------------------------------
+// systematic malformed inputs (round 3: every guard of the decoders is driven, not hit by luck)
+// ---------------------------------------------------------------------------------------------
+
+impl<'a> Gen<'a> {
+    /// One point of the sweep over the Variant encoding mask: `k` enumerates all 256 mask bytes times
+    /// 8 shapes of what follows (array length −2 / −1 / 0 / 1 / 2, dimension array null / negative /
+    /// matching / zero / overflowing / mismatching / over the limit).
+    pub fn variant_mask_sweep(&mut self, k: usize) -> Vec<u8> {
+        let mask = (k % 256) as u8;
+        let shape = (k / 256) % 8;
+        let ty = mask & 0x3f;
+        let mut b = vec![mask];
+        let elem = |g: &mut Gen, b: &mut Vec<u8>| {
+            if (1..=25).contains(&ty) {
+                let keep = g.ill_formed;
+                g.ill_formed = false;
+                let v = g.of_type(ty, 1);
+                g.ill_formed = keep;
+                if let Some(e) = Val::V(v).try_encode() {
+                    b.extend_from_slice(&e[1..]);
+                }
+            }
+        };
+        if mask & 0x80 != 0 {
+            let len: i32 = match shape {
+                0 => -2,
+                1 => -1,
+                2 => 0,
+                3 => 1,
+                _ => 2,
+            };
+            b.extend_from_slice(&len.to_le_bytes());
+            for _ in 0..len.max(0) {
+                elem(self, &mut b);
+            }
+            if mask & 0x40 != 0 {
+                let n = len.max(0) as u32;
+                let dims: Vec<i32> = match shape {
+                    3 => vec![1, 1],
+                    4 => vec![n as i32],
+                    5 => vec![0],
+                    6 => vec![65536, 65536],
+                    _ => vec![n as i32 + 1],
+                };
+                match shape {
+                    0 | 1 | 2 => {}                                   // nothing follows an empty array
+                    7 => b.extend_from_slice(&(-1i32).to_le_bytes()), // null dimensions
+                    _ => {
+                        b.extend_from_slice(&(dims.len() as i32).to_le_bytes());
+                        for d in dims {
+                            b.extend_from_slice(&d.to_le_bytes());
+                        }
+                    }
+                }
+                if shape == 2 {
+                    b.extend_from_slice(&(-2i32).to_le_bytes()); // trailing bytes after an empty array
+                }
+            }
+        } else {
+            elem(self, &mut b);
+        }
+        b
+    }
+}
+
+/// every proper prefix of an encoding (truncation at each byte): drives every "input too short" arm
+pub fn all_prefixes(bytes: &[u8], max_len: usize) -> Vec<Vec<u8>> {
+    (0..bytes.len().min(max_len)).map(|i| bytes[..i].to_vec()).collect()
 }
